@@ -2,7 +2,9 @@
 lexical rendering of an AST in random legal spellings, wire encoding of ASTs."""
 from . import wire
 
-NAMES = ["a", "b", "c", "a", "b", "x", "", "0", "1", "-1", "a b", "'", '"', "\\", "é", "\U0001F600", "\U0001F600x", "a\U0001F600\U0001F600", "\n", "\u0000", "\x7f", " ", "length", "*", "ab", "_x", "A"]
+NAMES = ["a", "b", "c", "a", "b", "x", "", "0", "1", "-1", "a b", "'", '"', "\\", "é", "\U0001F600", "\U0001F600x", "a\U0001F600\U0001F600", "\n", "\u0000", "\x7f", " ", "length", "*", "ab", "_x", "A",
+         # names that Unicode normalisation (NFC / NFKC) would rewrite: a query text must be taken as written, code point by code point
+         "e\u0301", "\u212b", "\u1100\u1161", "\u2126"]
 SIMPLE_NAMES = ["a", "b", "c", "d", "x"]
 LIM = (1 << 53) - 1
 BUILTINS = [("length", [1], 1, [0]), ("count", [3], 1, [1]), ("match", [1, 1], 2, [3]), ("search", [1, 1], 2, [4]), ("value", [3], 1, [2])]
